@@ -1,15 +1,74 @@
 (* C03 — non-malleable satisfactions cannot be altered by third parties.
-   Full statement (NOT proved; kept visible):
+   Full statement (NOT proved in full; kept visible):
      sane m -> satisfy (non-malleable) m A = Some w ->
      forall w', third_party_can_build w w' -> accepts e (enc m) w' = true -> w' = w
    where third_party_can_build: every signature in w' occurs in w, everything else is free.
-   Proved here: the satisfier model's has_sig bookkeeping on which its malleability decisions
-   (minimum, thresh) rest is truthful: in non-malleable mode a (dis)satisfaction marked
-   has_sig = false contains no signature placeholder, for every fragment nesting and asset set;
-   together with C05 (the static `m`/`s`/`e`/`f` rules equal the specification's) this is the
-   model-level part.  The unbounded uniqueness statement is searched per run: alternative
-   witnesses over the adversary's alphabet are executed on the extracted Script semantics. *)
+
+   Proved here (all theorems closed under the global context):
+
+   (0) [C03_hassig_bookkeeping_partial] the satisfier model's has_sig bookkeeping on which its
+       malleability decisions (minimum, thresh) rest is truthful: in non-malleable mode a
+       (dis)satisfaction marked has_sig = false contains no signature placeholder.
+
+   (U1) TABLE-LEVEL NON-MALLEABILITY, every fragment (leaves, all wrappers, and_v, and_b, or_b, or_c,
+       or_d, or_i, andor, thresh with any 1 <= k <= n, multi, sortedmulti, multi_a, sortedmulti_a;
+       raw_pk_h excluded: the table has no entry for it), no [covered] predicate is needed:
+       if the non-malleable satisfier model (sat_dissat ... false rhs m, any rhs) returns a Stack
+       that completes to the witness w, then w is the ONLY entry of the specification's satisfaction
+       table (Ms/SatSpec.v all_sat) that a third party can build.
+         - [C03_unique_table]: against ANY asset set B "below" the honest assets A (B's signatures
+           are A's signatures; B's preimages never contradict A's — B may open hashes A cannot;
+           same lock environment) which, among the keys of m, holds only signatures whose
+           placeholder occurs in the published template ([vis]).
+         - [C03_unique]: against the concrete third party [adv_assets A Pre w]: signatures = those
+           of A that occur AS BYTE STRINGS in w, preimages = an arbitrary oracle Pre consistent with
+           A's ([pre_consistent]; "every preimage that exists"), locks = A's (the signed
+           transaction fixes nLockTime / nSequence; this is what the root's `s` justifies).
+         - [C03_unique_exact]: when Pre knows at least the preimages A knows, the published witness is
+           itself an entry of the third party's table ([C03_witness_in_adversary_table]); so that table,
+           as a set, is EXACTLY {w}: In w' (all_sat ke (adv_assets A Pre w) m) <-> w' = w.
+         - [C03_unique_dissat_table]: the same for the dissatisfaction the model returns;
+           [C03_impossible_table]: what the model calls Impossible no third party can do either;
+           [C03_hassig_table]: a satisfaction marked has_sig cannot be rebuilt without a signature
+           of one of the fragment's keys.
+       Hypotheses: type_of m = ROk t, m_nm (t_mall t) = true (the `m` flag; `s` at the root is NOT
+       needed for the table statement), [uwf m] (no raw_pk_h; thresh 1 <= k <= n; multi* 1 <= k),
+       NoDup (ukeys m) (no repeated keys — sanity's has_repeated_keys), linked ke A se f,
+       locks_compatible se (one nLockTime/nSequence), ksort a permutation, and for the byte-level
+       third party [sigs_distinct] (two keys never share a signature; a signature is not the empty
+       vector, 01, 32 zero bytes, a public key or a preimage).  Each of NoDup, pre_consistent,
+       sigs_distinct and "non-malleable mode" is NECESSARY: [C03_needs_distinct_keys],
+       [C03_needs_preimage_consistency], [C03_needs_recognisable_signatures],
+       [C03_mall_mode_is_malleable] (concrete counterexamples).
+       What "unique" means at table level: the table lists only the CANONICAL dissatisfaction of a
+       hash fragment (32 zero bytes) and, for and_v, also the non-canonical `sat(X) dsat(Y)` the
+       library uses; other non-canonical (dis)satisfactions (any 32-byte non-preimage; and_b/or_b/
+       thresh with a satisfied child that contributes 0, ...) are not table entries and are
+       therefore outside U1 — they belong to the gap below.
+       No typing rule of the malleability system is refuted at table level.
+       Static reading of the flags, about the TABLE ALONE (no satisfier in the statement), for a fragment
+       typed `m` without repeated keys and ANY asset set B (every preimage, any met locks) that holds no
+       signature of the fragment's keys: typed `s` => B has no satisfaction [C03_static_signed_table];
+       typed `f` => B has no dissatisfaction [C03_static_forced_table]; typed `e` => B has exactly one
+       dissatisfaction and it contains no signature [C03_static_unique_dissat_table].
+
+   (U2) SCRIPT LEVEL, as far as Theorem A and the all-stacks theorems reach:
+         - [C03_unique_script_partial]: for a sane script (typed B, m, s, wf, no repeated keys) the
+           published witness is accepted, and every table satisfaction of the third party is accepted
+           (Theorem A) and EQUALS the published witness (U1).
+         - [C03_alternative_reuses_signature_partial]: ANY accepted witness of a sane script (table
+           entry or not, any stack) contains a valid signature (C06 signed soundness); over an
+           alphabet whose only valid signatures are those of the published witness it re-uses one.
+       REMAINING GAP (= Theorem B, not proved): every witness ACCEPTED by the Script semantics
+       whose elements are drawn from the third party's alphabet is a table entry of
+       [adv_assets A Pre w], up to non-canonical dissatisfactions that the `e`/`f`/`s` rules
+       exclude for sane scripts.  U1 + Theorem B would give the full statement.  The unbounded
+       uniqueness statement is therefore still searched per run: alternative witnesses over the
+       adversary's alphabet are executed on the extracted Script semantics. *)
 From Verif Require Import Exec Ser Ast Types TypeCheck SatSpec Sat ExecLemmas TheoremA SatProofs HasSigProofs.
+From Verif Require Import CompleteProofs CompleteNonMall SignedLemmas SignedSound
+  NonMallUnique NonMallUniqueThresh NonMallUniqueMulti NonMallUniqueMain NonMallUniqueExamples NonMallUniqueStatic NonMallUniqueExact.
+From Coq Require Import Permutation.
 
 Theorem C03_hassig_bookkeeping_partial : forall (ke : keyenv) (se : senv) (rhs : bool) (m : ms),
   P (fst (sat_dissat ke se false rhs m)) /\ P (snd (sat_dissat ke se false rhs m)).
@@ -18,3 +77,231 @@ Print Assumptions C03_hassig_bookkeeping_partial.
 
 Example C03_P_meaning : forall s, P s <-> (s_has_sig s = false -> forall l, s_stack s = WStack l -> Forall nosig l).
 Proof. intros s. unfold P. tauto. Qed.
+
+(* ---------------- (U1) table-level non-malleability ---------------- *)
+Theorem C03_unique_table :
+  forall (ke : keyenv) (A : assets) (se : senv) (f : fill),
+  linked ke A se f ->
+  (forall t1 t2, se_after se t1 = true -> se_after se t2 = true ->
+     Bool.eqb (N.ltb t1 500000000) (N.ltb t2 500000000) = true) ->
+  (forall t1 t2, se_older se t1 = true -> se_older se t2 = true ->
+     Bool.eqb (rel_is_time t1) (rel_is_time t2) = true) ->
+  (forall ks, Permutation (ksort ke ks) ks) ->
+  forall (rhs : bool) (m : ms) (t : ty),
+  uwf m -> NoDup (ukeys m) -> type_of m = ROk t -> m_nm (t_mall t) = true ->
+  forall (l : list ph) (bs : list bytes),
+  s_stack (snd (sat_dissat ke se false rhs m)) = WStack l -> fill_all f l = Some bs ->
+  forall B : assets, below A B -> vis B (ukeys m) l ->
+  forall w', In w' (all_sat ke B m) -> w' = rev bs.
+Proof. exact nonmall_unique_table. Qed.
+Print Assumptions C03_unique_table.
+
+Theorem C03_unique :
+  forall (ke : keyenv) (A : assets) (se : senv) (f : fill) (Pre : hkind -> bytes -> option bytes),
+  linked ke A se f -> locks_compatible se -> (forall ks, Permutation (ksort ke ks) ks) ->
+  sigs_distinct ke A -> pre_consistent A Pre ->
+  forall (rhs : bool) (m : ms) (t : ty),
+  uwf m -> NoDup (ukeys m) -> type_of m = ROk t -> m_nm (t_mall t) = true ->
+  forall bs, satisfy ke se f false rhs m = Some bs ->
+  forall w', In w' (all_sat ke (adv_assets A Pre (rev bs)) m) -> w' = rev bs.
+Proof. exact nonmall_unique. Qed.
+Print Assumptions C03_unique.
+
+Theorem C03_witness_in_adversary_table :
+  forall (ke : keyenv) (A : assets) (se : senv) (f : fill) (Pre : hkind -> bytes -> option bytes),
+  linked ke A se f -> (forall ks, length (ksort ke ks) = length ks) ->
+  (forall kd h p, look A kd h = Some p -> Pre kd h = Some p) ->
+  forall (mall rhs : bool) (m : ms), kwf m ->
+  forall bs, satisfy ke se f mall rhs m = Some bs ->
+  In (rev bs) (all_sat ke (adv_assets A Pre (rev bs)) m).
+Proof. exact nonmall_witness_in_adv_table. Qed.
+Print Assumptions C03_witness_in_adversary_table.
+
+Theorem C03_unique_exact :
+  forall (ke : keyenv) (A : assets) (se : senv) (f : fill) (Pre : hkind -> bytes -> option bytes),
+  linked ke A se f -> locks_compatible se -> (forall ks, Permutation (ksort ke ks) ks) ->
+  sigs_distinct ke A -> (forall kd h p, look A kd h = Some p -> Pre kd h = Some p) ->
+  forall (rhs : bool) (m : ms) (t : ty),
+  uwf m -> NoDup (ukeys m) -> type_of m = ROk t -> m_nm (t_mall t) = true ->
+  forall bs, satisfy ke se f false rhs m = Some bs ->
+  forall w', In w' (all_sat ke (adv_assets A Pre (rev bs)) m) <-> w' = rev bs.
+Proof. exact nonmall_unique_exact. Qed.
+Print Assumptions C03_unique_exact.
+
+Theorem C03_unique_dissat_table :
+  forall (ke : keyenv) (A : assets) (se : senv) (f : fill),
+  linked ke A se f ->
+  (forall t1 t2, se_after se t1 = true -> se_after se t2 = true ->
+     Bool.eqb (N.ltb t1 500000000) (N.ltb t2 500000000) = true) ->
+  (forall t1 t2, se_older se t1 = true -> se_older se t2 = true ->
+     Bool.eqb (rel_is_time t1) (rel_is_time t2) = true) ->
+  (forall ks, Permutation (ksort ke ks) ks) ->
+  forall (rhs : bool) (m : ms) (t : ty),
+  uwf m -> NoDup (ukeys m) -> type_of m = ROk t -> m_nm (t_mall t) = true ->
+  forall (l : list ph) (bs : list bytes),
+  s_stack (fst (sat_dissat ke se false rhs m)) = WStack l -> fill_all f l = Some bs ->
+  forall B : assets, below A B -> vis B (ukeys m) l ->
+  forall w', In w' (all_dsat ke B m) -> w' = rev bs.
+Proof. exact nonmall_unique_dissat_table. Qed.
+Print Assumptions C03_unique_dissat_table.
+
+Theorem C03_impossible_table :
+  forall (ke : keyenv) (A : assets) (se : senv) (f : fill),
+  linked ke A se f ->
+  (forall t1 t2, se_after se t1 = true -> se_after se t2 = true ->
+     Bool.eqb (N.ltb t1 500000000) (N.ltb t2 500000000) = true) ->
+  (forall t1 t2, se_older se t1 = true -> se_older se t2 = true ->
+     Bool.eqb (rel_is_time t1) (rel_is_time t2) = true) ->
+  (forall ks, Permutation (ksort ke ks) ks) ->
+  forall (rhs : bool) (m : ms) (t : ty),
+  uwf m -> NoDup (ukeys m) -> type_of m = ROk t -> m_nm (t_mall t) = true ->
+  s_stack (snd (sat_dissat ke se false rhs m)) = WImpossible ->
+  forall B : assets, below A B -> all_sat ke B m = [].
+Proof. exact nonmall_impossible_table. Qed.
+Print Assumptions C03_impossible_table.
+
+Theorem C03_hassig_table :
+  forall (ke : keyenv) (A : assets) (se : senv) (f : fill),
+  linked ke A se f ->
+  (forall t1 t2, se_after se t1 = true -> se_after se t2 = true ->
+     Bool.eqb (N.ltb t1 500000000) (N.ltb t2 500000000) = true) ->
+  (forall t1 t2, se_older se t1 = true -> se_older se t2 = true ->
+     Bool.eqb (rel_is_time t1) (rel_is_time t2) = true) ->
+  (forall ks, Permutation (ksort ke ks) ks) ->
+  forall (rhs : bool) (m : ms) (t : ty),
+  uwf m -> NoDup (ukeys m) -> type_of m = ROk t -> m_nm (t_mall t) = true ->
+  s_has_sig (snd (sat_dissat ke se false rhs m)) = true ->
+  forall B : assets, below A B -> nosigs B (ukeys m) -> all_sat ke B m = [].
+Proof. exact nonmall_hassig_table. Qed.
+Print Assumptions C03_hassig_table.
+
+(* the concrete third party is an instance of the abstract one *)
+Theorem C03_adversary_is_below :
+  forall (A : assets) (Pre : hkind -> bytes -> option bytes) (w : list bytes),
+  pre_consistent A Pre -> below A (adv_assets A Pre w).
+Proof. exact adv_below. Qed.
+Print Assumptions C03_adversary_is_below.
+
+Theorem C03_adversary_sees_only_published_signatures :
+  forall (ke : keyenv) (A : assets) (se : senv) (f : fill) (Pre : hkind -> bytes -> option bytes)
+         (K : list key) (l : list ph) (bs : list bytes),
+  linked ke A se f -> sigs_distinct ke A -> fill_all f l = Some bs ->
+  vis (adv_assets A Pre (rev bs)) K l.
+Proof. exact adv_vis. Qed.
+Print Assumptions C03_adversary_sees_only_published_signatures.
+
+(* ---------------- the flags s / f / e as statements about the table alone ---------------- *)
+Theorem C03_static_signed_table :
+  forall (ke : keyenv), (forall ks, Permutation (ksort ke ks) ks) ->
+  forall (B : assets), locks_ok B ->
+  forall (m : ms) (t : ty), uwf m -> NoDup (ukeys m) -> type_of m = ROk t -> m_nm (t_mall t) = true ->
+  nosigs B (ukeys m) -> m_signed (t_mall t) = true -> all_sat ke B m = [].
+Proof. exact static_signed_table. Qed.
+Print Assumptions C03_static_signed_table.
+
+Theorem C03_static_forced_table :
+  forall (ke : keyenv), (forall ks, Permutation (ksort ke ks) ks) ->
+  forall (B : assets), locks_ok B ->
+  forall (m : ms) (t : ty), uwf m -> NoDup (ukeys m) -> type_of m = ROk t -> m_nm (t_mall t) = true ->
+  nosigs B (ukeys m) -> m_dissat (t_mall t) = DNone -> all_dsat ke B m = [].
+Proof. exact static_forced_table. Qed.
+Print Assumptions C03_static_forced_table.
+
+Theorem C03_static_unique_dissat_table :
+  forall (ke : keyenv), (forall ks, Permutation (ksort ke ks) ks) ->
+  forall (B : assets), locks_ok B ->
+  forall (m : ms) (t : ty), uwf m -> NoDup (ukeys m) -> type_of m = ROk t -> m_nm (t_mall t) = true ->
+  nosigs B (ukeys m) -> m_dissat (t_mall t) = DUnique ->
+  exists (l : list ph) (d : wit),
+    Forall nosig l /\ fill_all (f_of ke B) l = Some (rev d) /\
+    In d (all_dsat ke B m) /\ forall w', In w' (all_dsat ke B m) -> w' = d.
+Proof. exact static_unique_dissat_table. Qed.
+Print Assumptions C03_static_unique_dissat_table.
+
+(* ---------------- (U2) script level ---------------- *)
+Theorem C03_unique_script_partial :
+  forall (e : env) (ke : keyenv) (A : assets) (se : senv) (f : fill) (Pre : hkind -> bytes -> option bytes),
+  linked ke A se f -> locks_compatible se -> (forall ks, Permutation (ksort ke ks) ks) ->
+  sigs_distinct ke A -> pre_consistent A Pre -> pre_genuine e Pre ->
+  assets_ok e ke A -> (forall kbs, e_sigok e kbs [] = false) ->
+  forall (m : ms) (t : ty), type_of m = ROk t -> c_base (t_corr t) = BB -> wf e ke m -> no_multi m -> NoDup (ukeys m) ->
+  m_nm (t_mall t) = true -> m_signed (t_mall t) = true ->
+  forall bs, satisfy ke se f false (m_signed (t_mall t)) m = Some bs ->
+  accepts e (enc ke m) (rev bs) = true /\
+  forall w', In w' (all_sat ke (adv_assets A Pre (rev bs)) m) ->
+    accepts e (enc ke m) w' = true /\ w' = rev bs.
+Proof. exact nonmall_unique_script. Qed.
+Print Assumptions C03_unique_script_partial.
+
+Theorem C03_alternative_reuses_signature_partial :
+  forall (e : env) (ke : keyenv) (m : ms) (t : ty),
+  type_of m = ROk t -> wf e ke m -> c_base (t_corr t) = BB -> m_signed (t_mall t) = true ->
+  forall (w w' : list bytes),
+    (forall x, In x w' -> validsig e x -> In x w) ->
+    accepts e (enc ke m) w' = true ->
+    exists x, In x w' /\ In x w /\ validsig e x.
+Proof. exact accepted_alternative_reuses_signature. Qed.
+Print Assumptions C03_alternative_reuses_signature_partial.
+
+(* ---------------- the hypotheses are necessary ---------------- *)
+Theorem C03_mall_mode_is_malleable :
+  exists bs w', satisfy ux_ke ux_se ux_f true true ux_choice = Some bs /\
+    In w' (all_sat ux_ke (adv_assets ux_A ux_Pre (rev bs)) ux_choice) /\ w' <> rev bs.
+Proof. exact mall_mode_is_malleable. Qed.
+Print Assumptions C03_mall_mode_is_malleable.
+
+Theorem C03_needs_distinct_keys :
+  exists t bs w', type_of ux_rep = ROk t /\ m_nm (t_mall t) = true /\ m_signed (t_mall t) = true /\ uwf ux_rep /\
+    ~ NoDup (ukeys ux_rep) /\
+    satisfy ux_ke ux_se ux_f false true ux_rep = Some bs /\
+    In w' (all_sat ux_ke (adv_assets ux_A ux_Pre (rev bs)) ux_rep) /\ w' <> rev bs.
+Proof. exact unique_needs_distinct_keys. Qed.
+Print Assumptions C03_needs_distinct_keys.
+
+Theorem C03_needs_preimage_consistency :
+  exists t bs w' (Pre : hkind -> bytes -> option bytes),
+    type_of ux_hash = ROk t /\ m_nm (t_mall t) = true /\ m_signed (t_mall t) = true /\ uwf ux_hash /\ NoDup (ukeys ux_hash) /\
+    ~ pre_consistent ux_A Pre /\
+    satisfy ux_ke ux_se ux_f false true ux_hash = Some bs /\
+    In w' (all_sat ux_ke (adv_assets ux_A Pre (rev bs)) ux_hash) /\ w' <> rev bs.
+Proof. exact unique_needs_preimage_consistency. Qed.
+Print Assumptions C03_needs_preimage_consistency.
+
+Theorem C03_needs_recognisable_signatures :
+  exists t bs w', type_of ux_ori = ROk t /\ m_nm (t_mall t) = true /\ m_signed (t_mall t) = true /\ uwf ux_ori /\ NoDup (ukeys ux_ori) /\
+    linked ux_ke ux_A1 ux_se1 ux_f1 /\ ~ sigs_distinct ux_ke ux_A1 /\
+    satisfy ux_ke ux_se1 ux_f1 false true ux_ori = Some bs /\
+    In w' (all_sat ux_ke (adv_assets ux_A1 (fun _ _ => None) (rev bs)) ux_ori) /\ w' <> rev bs.
+Proof. exact unique_needs_recognisable_signatures. Qed.
+Print Assumptions C03_needs_recognisable_signatures.
+
+(* ---------------- non-vacuity: the hypotheses of C03_unique are satisfiable ---------------- *)
+(* thresh(2, pk(0), s:pk(1), s:pk(2)), k < n: all hypotheses hold, the satisfier returns a witness, and the
+   third party's table is exactly that witness (it is not empty) *)
+Example C03_unique_nonvacuous_thresh :
+  linked ux_ke ux_A ux_se ux_f /\ locks_compatible ux_se /\ (forall ks, Permutation (ksort ux_ke ks) ks) /\
+  sigs_distinct ux_ke ux_A /\ pre_consistent ux_A ux_Pre /\
+  uwf ux_thresh /\ NoDup (ukeys ux_thresh) /\
+  (exists t, type_of ux_thresh = ROk t /\ m_nm (t_mall t) = true /\ m_signed (t_mall t) = true /\ c_base (t_corr t) = BB) /\
+  satisfy ux_ke ux_se ux_f false true ux_thresh = Some ux_thresh_w /\
+  all_sat ux_ke (adv_assets ux_A ux_Pre (rev ux_thresh_w)) ux_thresh = [rev ux_thresh_w].
+Proof. exact ux_thresh_nonvacuous. Qed.
+
+(* a genuine choice: and_v(v:pk(2), or_i(pk(0), and_v(v:sha256,and_v(v:sha256,sha256)))).  The honest table has two
+   entries; non-malleable mode publishes the signature-free (larger) one; the third party's table is that one only *)
+Example C03_unique_nonvacuous_choice :
+  uwf ux_choice /\ NoDup (ukeys ux_choice) /\
+  (exists t, type_of ux_choice = ROk t /\ m_nm (t_mall t) = true /\ m_signed (t_mall t) = true /\ c_base (t_corr t) = BB) /\
+  length (all_sat ux_ke ux_A ux_choice) = 2%nat /\
+  satisfy ux_ke ux_se ux_f false true ux_choice = Some ux_choice_w /\
+  all_sat ux_ke (adv_assets ux_A ux_Pre (rev ux_choice_w)) ux_choice = [rev ux_choice_w].
+Proof. exact ux_choice_nonvacuous. Qed.
+
+(* the static statements: thresh(2, pk(0), s:pk(1), s:pk(2)) is typed m, s, e; a signature-less asset set that opens
+   every hash has no table satisfaction and exactly one table dissatisfaction *)
+Example C03_static_nonvacuous :
+  (forall ks, Permutation (ksort c02x_ke ks) ks) /\ locks_ok ux_B0 /\ uwf c02x_thresh /\ NoDup (ukeys c02x_thresh) /\
+  nosigs ux_B0 (ukeys c02x_thresh) /\
+  (exists t, type_of c02x_thresh = ROk t /\ m_nm (t_mall t) = true /\ m_signed (t_mall t) = true /\ m_dissat (t_mall t) = DUnique) /\
+  all_sat c02x_ke ux_B0 c02x_thresh = [] /\ all_dsat c02x_ke ux_B0 c02x_thresh = [[[]; []; []]].
+Proof. exact static_nonvacuous. Qed.
